@@ -52,8 +52,12 @@ package resample
 //@   loop 2: invariant 0 <= i && i < len(ls) - 1 && len(points) >= 1 && fresh(points) && same(points[0][0], ls[0][0]) && same(points[0][1], ls[0][1])
 //@   loop 1: exitassume len(points) == totalPoints
 
+// Resample gives up early only for a non-positive count (return 1) or when the edge-case handler says
+// the line is degenerate (return 2); everything else goes through the interpolation
 //@ func Resample(ls, df, totalPoints)
 //@   purefuncs
+//@   return 1: totalPoints <= 0
+//@   return 2: ret
 //@   requires df != nil && totalPoints <= 1073741824
 //@   ensures totalPoints <= 0 ==> result == nil
 //@   ensures totalPoints >= 1 && len(ls) <= 1 ==> same(result, ls)
